@@ -118,6 +118,8 @@ func applyStructOp(g geom.Geometry, act string, arg T) geom.Geometry {
 			return geom.NewMultiPolygon([]geom.Polygon{g.MustAsPolygon(), o.MustAsPolygon()}).AsGeometry()
 		}
 		panic("mkmulti on " + g.Type().String())
+	case "mkpoly":
+		return geom.NewPolygon([]geom.LineString{g.MustAsLineString(), buildTree(arg).MustAsLineString()}).AsGeometry()
 	case "snap0":
 		return g.SnapToGrid(0)
 	case "densify":
@@ -142,7 +144,7 @@ func applyStructOp(g geom.Geometry, act string, arg T) geom.Geometry {
 	panic("unknown act " + act)
 }
 
-func structObserve(st Event, g geom.Geometry) {
+func structObserve(st Event, g geom.Geometry, setOps bool) {
 	st["got"] = projectTree(g)
 	st["cts"] = allCts(g)
 	dump := []Event{}
@@ -154,7 +156,7 @@ func structObserve(st Event, g geom.Geometry) {
 	st["coords"], st["coordsct"] = seqToks(dc), ctName(dc.CoordinatesType())
 	xy := []string{ctName(g.Centroid().CoordinatesType()), ctName(g.ConvexHull().CoordinatesType()), ctName(g.PointOnSurface().CoordinatesType()),
 		ctName(g.Envelope().AsGeometry().CoordinatesType()), ctName(g.Envelope().BoundingDiagonal().CoordinatesType())}
-	if g.Validate() == nil {
+	if setOps && g.Validate() == nil {
 		if u, err := geom.Union(g, g); err == nil {
 			xy = append(xy, ctName(u.CoordinatesType()))
 		}
@@ -176,6 +178,7 @@ func structExec(c Case) Event {
 	start := asTree(c["start"])
 	g := buildTree(start)
 	steps := []Event{}
+	_, sliver := c["sliver"] // rings a few ulps wide: the overlay operations are left to C01's domain
 	for _, s := range c.list("steps") {
 		sm := s.(map[string]interface{})
 		act := fmt.Sprint(sm["act"])
@@ -188,7 +191,7 @@ func structExec(c Case) Event {
 				}
 			}()
 			g = applyStructOp(g, act, T(arg))
-			structObserve(st, g)
+			structObserve(st, g, !sliver)
 		}()
 		steps = append(steps, st)
 		if st["panic"] != "" {
@@ -198,16 +201,19 @@ func structExec(c Case) Event {
 	return Event{"start": start, "steps": steps, "nt": !g.IsEmpty(), "nevents": len(steps)}
 }
 
-var structActs = []string{"force", "force", "force2d", "reverse", "swapxy", "asmulti", "mkgc", "mkgc1", "mkmulti", "snap0", "densify", "wkb", "wkt", "forcecw", "forceccw"}
+var structActs = []string{"force", "force", "force2d", "reverse", "swapxy", "asmulti", "mkgc", "mkgc1", "mkmulti", "mkpoly", "snap0", "densify", "wkb", "wkt", "forcecw", "forceccw"}
 
 func structGen(r *rand.Rand, n int, tier string, emit func(Case)) {
 	for i := 0; i < n; i++ {
-		tg := &treeGen{r: r, finite: true, simple: true}
+		tg := &treeGen{r: r, finite: true, simple: true, sliver: r.Intn(6) == 0}
 		start := tg.tree(0, ctypes[r.Intn(4)], "")
 		cur := fmt.Sprint(start["t"])
 		steps := []interface{}{}
 		for k, m := 0, 1+r.Intn(12); k < m; k++ {
 			act := structActs[r.Intn(len(structActs))]
+			if tg.sliver && act == "snap0" {
+				continue // rounding to integers is not the identity on a sliver
+			}
 			arg := T{"ct": ""}
 			switch act {
 			case "force":
@@ -226,6 +232,18 @@ func structGen(r *rand.Rand, n int, tier string, emit func(Case)) {
 				}
 				arg = tg.tree(1, ctypes[r.Intn(4)], cur)
 				cur = "Multi" + cur
+			case "mkpoly":
+				// rings of any coordinate types; only from a non-empty LineString that no step has changed yet
+				if cur != "LineString" || len(start["c"].([]interface{})) == 0 {
+					continue
+				}
+				for {
+					arg = tg.tree(1, ctypes[r.Intn(4)], "LineString")
+					if len(arg["c"].([]interface{})) > 0 {
+						break
+					}
+				}
+				cur = "Polygon"
 			case "asmulti":
 				if cur == "Point" || cur == "LineString" || cur == "Polygon" {
 					cur = "Multi" + cur
@@ -233,7 +251,11 @@ func structGen(r *rand.Rand, n int, tier string, emit func(Case)) {
 			}
 			steps = append(steps, T{"act": act, "arg": arg})
 		}
-		emit(Case{"start": start, "steps": steps})
+		c := Case{"start": start, "steps": steps}
+		if tg.sliver {
+			c["sliver"] = true
+		}
+		emit(c)
 	}
 }
 
